@@ -251,6 +251,35 @@ def check_case(qt, mb, out, feed, inp, dist, ratios):
   return viol, len(rewritten)
 
 
+def shared_weight_model(rng):
+  """two FULLY_CONNECTED ops reading ONE weight tensor (a constant with several consumers)"""
+  mb = gg.ModelBuilder(rng, name_style=0)
+  gb = gg.GraphBuilder(mb, 0, 'serving_default')
+  n, m_ = rng.choice([3, 4, 6]), rng.choice([2, 3, 4])
+  x = gb.act('serving_default_x', (rng.choice([1, 2]), n))
+  gb.g.inputs.append(x)
+  w = gb.fconst('serving_default/shared/w', [m_, n], kind='normal')
+  outs = []
+  for i in range(2):
+    out = gb.act(f'serving_default/fc{i}/out', (gb.g.tensors[x].shape[0], m_))
+    gb.op(gg.B.FULLY_CONNECTED, [x, w, -1], [out], gg.S.BuiltinOptions.FullyConnectedOptions,
+          gb._mk(gg.S.FullyConnectedOptionsT, fusedActivationFunction=0, keepNumDims=False,  # pylint: disable=protected-access
+                 weightsFormat=0))
+    outs.append(out)
+  gb.g.outputs = np.array(outs, dtype=np.int32)
+  gb.g.inputs = np.array(gb.g.inputs, dtype=np.int32)
+  mb.m.subgraphs.append(gb.g)
+  sd = gg.S.SignatureDefT()
+  sd.signatureKey = b'serving_default'
+  sd.subgraphIndex = 0
+  sd.inputs, sd.outputs = [], []
+  tm = gg.S.TensorMapT(); tm.name = b'x'; tm.tensorIndex = int(x); sd.inputs.append(tm)
+  for i, t in enumerate(outs):
+    tm = gg.S.TensorMapT(); tm.name = f'y{i}'.encode(); tm.tensorIndex = int(t); sd.outputs.append(tm)
+  mb.m.signatureDefs.append(sd)
+  return mb.finish(), {'n_subgraphs': 1, 'ops': [2]}
+
+
 def main():
   out_path = sys.argv[1]
   tier = os.environ.get('VERIF_TIER', 'quick')
@@ -290,10 +319,23 @@ def main():
   k = 0
   while k < n_models:
     directed = rng.random() < 0.3
-    mb, info = gg.gen_model(rng, max_ops=rng.choice([2, 4, 6]), op_weights=wops if rng.random() < 0.7 else None)
+    shared = rng.random() < 0.15
+    if shared:
+      # one constant, two consumers, a different float-compute config per consumer
+      mb, info = shared_weight_model(rng)
+      dist['directed:shared-weight'] += 1
+    else:
+      mb, info = gg.gen_model(rng, max_ops=rng.choice([2, 4, 6]), op_weights=wops if rng.random() < 0.7 else None)
     qt = quantizer.Quantizer(bytearray(mb))
     r = rng.random()
-    if r < 0.3:
+    if shared:
+      import re as _re
+      ca, cb = rng.sample(FLOAT_CFGS, 2)
+      desc = gr.apply_rules(qt, [('^' + _re.escape('serving_default/fc0/out;') + '$', '*', ncfg[ca][0], ca),
+                                 ('^' + _re.escape('serving_default/fc1/out;') + '$', '*', ncfg[cb][0], cb)])
+      if not desc:
+        continue
+    elif r < 0.3:
       desc = rng.choice(['default_af32w8float_recipe', 'default_af32w4float_recipe', 'dynamic_wi8_afp32_recipe'])
       qt.load_quantization_recipe(copy.deepcopy(ship[desc]))
     else:
